@@ -1,6 +1,6 @@
 """C03 — the same model and seeds give the same run, every time and in every process.
 
-A zoo of 32 small models (simkit/c03_zoo.py) covers every component family of the property's quantifier.  One scenario =
+A zoo of 34 small models (simkit/c03_zoo.py) covers every component family of the property's quantifier.  One scenario =
 {model, params, user seed, other models that run earlier in the same interpreter, perturbation plan}.  `run(sc)` executes
 the model under the perturbations and compares one canonical digest = delivery log (time_ns, event_type, target name)
 recorded through the engine's own `sim.control.on_event` seam + the model's list of public statistics:
@@ -38,14 +38,14 @@ from simkit.c03_zoo import VARIANT, ZOO  # noqa: E402
 from simkit.world import InvalidScenario, result  # noqa: E402
 
 PROPERTY = "C03"
-RUNS = {"quick": 640, "thorough": 60_000}
+RUNS = {"quick": 408, "thorough": 60_000}
 WALL = {"quick": 45, "thorough": 1500}
 BATCH = {"quick": 8, "thorough": 40}
 SELFTEST_RUNS = 6
 SHRINK_BUDGET_S = {"quick": 20.0, "thorough": 60.0}
 SHRINK_SKIP = ("params", "model")
 RULE = (
-    "each case = one of 32 zoo models (sources->servers, all queue policies incl. RED/CoDel/Balking, lossy/jittered Network, "
+    "each case = one of 34 zoo models (sources->servers, all queue policies incl. RED/CoDel/Balking, lossy/jittered Network, "
     "Raft, Paxos, Multi-/Flexible-Paxos, leader-election strategies, SWIM, LSM+WAL, BTree, CachedStore x 10 eviction "
     "configurations, SoftTTL, MultiTier, sharded/replicated store, primary-backup, chain, multi-leader, CRDTStore gossip, "
     "MessageQueue+DLQ, Topic, EventLog+ConsumerGroup, rate limiters, load-balancer strategies, sketch collectors fed strings, "
@@ -54,7 +54,7 @@ RULE = (
     "reference run delivered >= 30 events and >= 3 perturbed runs were compared with it; distinct = distinct reference digests"
 )
 STATE_MEASURE = "distinct (model, variant = categorical parameters selecting the code path, deliveries bucket) tuples"
-REAL = ["every happysimulator component named in simkit/c03_zoo.py (32 model builders): core.Simulation/Event/Source, "
+REAL = ["every happysimulator component named in simkit/c03_zoo.py (34 model builders): core.Simulation/Event/Source, "
         "components.server/queue_policies/industrial/network/consensus/storage/datastore/replication/crdt/messaging/"
         "streaming/rate_limiter/load_balancer/sketching/behavior/client/infrastructure, sketching.*, distributions.*"]
 STUBS = ["zoo glue entities: Proc (function handler), KVClient / RWClient (scripted clients drawing think times and keys from "
@@ -180,26 +180,64 @@ def _decode(line: str, what: str) -> list:
     return resp["results"]
 
 
-def call_fork(hs: int, jobs: list, full: bool = False) -> list:
-    """Run `jobs` in order inside one pristine forked copy of the hash-seed-`hs` zygote."""
-    p = _zygote(hs)
-    try:
-        p.stdin.write(json.dumps({"jobs": jobs, "full": full}) + "\n")
-        p.stdin.flush()
-        line = p.stdout.readline()
-    except BaseException:
-        _kill(hs)
-        raise
+def _start(hs: int, how: str, jobs: list, full: bool):
+    """Hand `jobs` (run in order inside one interpreter) to a pristine forked copy of the hash-seed-`hs` zygote (how='fork')
+    or to a literal fresh subprocess started with PYTHONHASHSEED=hs (how='spawn'); returns a handle for _finish."""
+    req = json.dumps({"jobs": jobs, "full": full}) + "\n"
+    if how == "spawn":
+        p = subprocess.Popen([sys.executable, CHILD, "--oneshot"], stdin=subprocess.PIPE, stdout=subprocess.PIPE,
+                             stderr=subprocess.DEVNULL, env=_env(hs), text=True)
+        p.stdin.write(req)
+        p.stdin.close()
+        return ("spawn", hs, p)
+    z = _zygote(hs)
+    z.stdin.write(req)
+    z.stdin.flush()
+    return ("fork", hs, z)
+
+
+def _finish(handle) -> list:
+    how, hs, p = handle
+    if how == "spawn":
+        out = p.stdout.read()
+        p.stdout.close()
+        rc = p.wait()
+        lines = out.strip().splitlines()
+        return _decode(lines[-1] if lines else "", f"spawn hs={hs} rc={rc}")
+    line = p.stdout.readline()
     if not line:
         _kill(hs)
     return _decode(line, f"zygote hs={hs}")
 
 
+def _abort(handles) -> None:
+    for how, hs, p in handles:
+        if how == "spawn":
+            try:
+                p.kill()
+                p.wait(timeout=5)
+            except Exception:  # noqa: BLE001
+                pass
+    for hs in list(_Z):
+        _kill(hs)
+
+
+def call_fork(hs: int, jobs: list, full: bool = False) -> list:
+    h = _start(hs, "fork", jobs, full)
+    try:
+        return _finish(h)
+    except BaseException:
+        _abort([h])
+        raise
+
+
 def call_spawn(hs: int, jobs: list, full: bool = False) -> list:
-    """Run `jobs` in order inside a literal fresh subprocess started with PYTHONHASHSEED=hs."""
-    p = subprocess.run([sys.executable, CHILD, "--oneshot"], input=json.dumps({"jobs": jobs, "full": full}) + "\n",
-                       capture_output=True, text=True, env=_env(hs), timeout=120)
-    return _decode(p.stdout.strip().splitlines()[-1] if p.stdout.strip() else "", f"spawn hs={hs} rc={p.returncode} {p.stderr[-300:]}")
+    h = _start(hs, "spawn", jobs, full)
+    try:
+        return _finish(h)
+    except BaseException:
+        _abort([h])
+        raise
 
 
 # ---------------------------------------------------------------------------
@@ -207,7 +245,7 @@ def call_spawn(hs: int, jobs: list, full: bool = False) -> list:
 # ---------------------------------------------------------------------------
 
 def _norm(s: str) -> str:
-    return re.sub(r"\d+", "#", str(s))[:60]
+    return re.sub(r"\d+", "#", str(s)).replace("/", "|").replace("*", "x")[:60]
 
 
 def first_difference(ref: dict, other: dict) -> tuple[str, str]:
@@ -268,11 +306,18 @@ def _program(sc) -> list:
 
 
 def _execute(prog: list, full: bool, spawn_all: bool = False) -> list:
-    """-> [(kind, result)] in program order; the first entry is the reference."""
+    """-> [(kind, hash seed, result)] in program order; the first entry is the reference.  The steps run in different
+    interpreters, so they are started together and collected in order."""
+    handles = []
+    try:
+        for step in prog:
+            handles.append(_start(step["hs"], "spawn" if (spawn_all or step["how"] == "spawn") else "fork", step["jobs"], full))
+        results = [_finish(h) for h in handles]
+    except BaseException:
+        _abort(handles)
+        raise
     out = []
-    for step in prog:
-        fn = call_spawn if (spawn_all or step["how"] == "spawn") else call_fork
-        res = fn(step["hs"], step["jobs"], full)
+    for step, res in zip(prog, results):
         for kind, idx in step["marks"]:
             out.append((kind, step["hs"], res[idx]))
     return out
